@@ -323,6 +323,16 @@ pub fn in_arena2<R>(x: &[u8], f: impl FnOnce(&Vec<u8>) -> R) -> R {
     in_arena_slot(1, x, f)
 }
 
+/// Like `in_arena`, but the copy starts exactly `k` (0..=7) bytes into the buffer: for exhaustive stages that want every
+/// alignment of every case.
+pub fn in_arena_at<R>(k: usize, x: &[u8], f: impl FnOnce(&Vec<u8>) -> R) -> R {
+    let saved = arena_calls();
+    set_arena_calls((k as u64 % 8) * 256);
+    let r = in_arena_slot(0, x, f);
+    set_arena_calls(saved);
+    r
+}
+
 fn in_arena_slot<R>(slot: usize, x: &[u8], f: impl FnOnce(&Vec<u8>) -> R) -> R {
     let mut buf = ARENAS.with(|a| std::mem::take(&mut *a[slot].borrow_mut()));
     if buf.capacity() < x.len() + 8 {
